@@ -97,9 +97,18 @@ func (m *mapIter[K, V]) MoveNext() bool {
 
 func (m *mapIter[K, V]) Current() pair[K, V] {
 	return pair[K, V]{
-		Key: m.iter.Key().Interface().(K),
-		Val: m.iter.Value().Interface().(V),
+		Key: valueAs[K](m.iter.Key()),
+		Val: valueAs[V](m.iter.Value()),
 	}
+}
+
+// valueAs converts a reflected map key or element back to its static type;
+// a nil interface value has no dynamic type to assert and is the zero value of T
+func valueAs[T any](v reflect.Value) (t T) {
+	if x := v.Interface(); x != nil {
+		t = x.(T)
+	}
+	return
 }
 
 type chanIter[V any] struct {
